@@ -67,9 +67,9 @@ PROPS = {
                       '(scan_len_wrap_refuted) and on the real code (known finding F7). A boolean checker of (a)-(f), proved sound, '
                       'is run on the intervals the implementation reports.',
         'level_note': 'Trusted: Coq kernel+VM; the hand transcription of msp.rs into coq/Algo/Scan.v (p-mers as base lists; the packed '
-                      'p-mer type enters through the C10/C11 refinements get_kmer = substring, extend_right = shift); the inner '
-                      'index operations are total in the model and the absence of index panics under the guard is checked by the '
-                      'differential run only; extraction; harness. No axioms. Known finding (open, not repaired): 2k-p > 65535.',
+                      'p-mer type enters through the C10/C11 refinements get_kmer = substring, extend_right = shift); extraction; '
+                      'harness. Index panics and usize underflow are modelled (scan_checked) and proved absent under the guards '
+                      '(C07_no_inner_panic). No axioms. Known finding (open, not repaired): 2k-p > 65535.',
         'technique': 'loop-invariant proof over an executable model (Coq), verified boolean checker on implementation outputs, '
                      'differential correspondence',
         'rule': 'p-mer types Kmer2,3,4,5,6,8,10,12,16; k = p..p+9 and three larger; sequences of length k..6k over alphabets of 1-4 '
